@@ -310,6 +310,11 @@ func decompose(t *Term, pol bool) []Fact {
 		switch t.Name {
 		case "bytes.Equal", "hmac.Equal":
 			return eqFacts(t.Args[0], t.Args[1], pol)
+		case ".Equal":
+			// symmetric (time.Time.Equal and friends): canonical operand order
+			if len(t.Args) == 2 && t.Args[0].Key() > t.Args[1].Key() {
+				return []Fact{{atomB(&Term{Op: "call", Name: ".Equal", Args: []*Term{t.Args[1], t.Args[0]}, Callee: t.Callee, Type: t.Type}), pol}}
+			}
 		case ".After":
 			// time.Time: a.After(b) is b.Before(a)
 			// (terms built by rules carry no callee)
